@@ -84,4 +84,59 @@ package handler
 //@ axiom leaseDepDef: forall id: types.LeaseID :: leaseDep(id).Owner == id.Owner && leaseDep(id).DSeq == id.DSeq
 //@   trigger leaseDep(id)
 
-//@ property C04 := (msgServer).CloseLease#*
+// ---- CloseBid ---------------------------------------------------------------------------------
+// An open bid is simply closed; a matched bid is closed together with its active lease and its order, the group
+// is paused and the payment stream is asked to close.  Nothing else is accepted.
+//@ func (msgServer).CloseBid
+//@   requires msg != nil && wired(ms)
+//@   modifies ghost KVhas, ghost KVval, ghost G, ghost Bank, ghost Mod, ghost It_all, ghost EvN, ghost EvLog, ghost PayCloseReq
+//@   uses keepsClosedTrans, keepsClosedRefl, orderBidDisjoint, orderLeaseDisjoint, bidLeaseDisjoint
+//@   ensures [guards] result1 == nil ==> old(KVhas)[mskey(ms)][bidKeyOf(msg.BidID)] && old(KVhas)[mskey(ms)][orderKeyOf(bidOrder(msg.BidID))]
+//@        && (bidOf(old(KVval)[mskey(ms)], msg.BidID).State == types.BidOpen
+//@            || (bidOf(old(KVval)[mskey(ms)], msg.BidID).State == types.BidActive && old(KVhas)[mskey(ms)][leaseKeyOf(asLease(msg.BidID))]
+//@                && leaseOf(old(KVval)[mskey(ms)], asLease(msg.BidID)).State == types.LeaseActive))
+//@   ensures [open] result1 == nil && bidOf(old(KVval)[mskey(ms)], msg.BidID).State == types.BidOpen ==>
+//@        bidOf(KVval[mskey(ms)], bidOf(old(KVval)[mskey(ms)], msg.BidID).BidID).State == types.BidClosed
+//@   ensures [payment] result1 == nil && bidOf(old(KVval)[mskey(ms)], msg.BidID).State != types.BidOpen ==>
+//@        PayCloseReq[depXID(leaseDep(leaseOf(old(KVval)[mskey(ms)], asLease(msg.BidID)).LeaseID))][leasePID(leaseOf(old(KVval)[mskey(ms)], asLease(msg.BidID)).LeaseID)]
+//@   oncall keeper.(IKeeper).OnOrderClosed 1 assert
+//@        leaseOf(KVval[mskey(ms)], lease.LeaseID).State == types.LeaseClosed && bidOf(KVval[mskey(ms)], bid.BidID).State == types.BidClosed
+//@        && (order.State != types.OrderClosed ==> ordOf(KVval[mskey(ms)], order.OrderID).State == types.OrderClosed)
+//@        && (grpOf(old(KVval)[dskey(ms)], orderGroup(order.OrderID)).GroupID == orderGroup(order.OrderID) ==>
+//@               grpOf(KVval[dskey(ms)], orderGroup(order.OrderID)).State == dtypes.GroupPaused)
+//@ spec bidOrder(id: types.BidID): types.OrderID
+//@ axiom bidOrderDef: forall id: types.BidID :: bidOrder(id).Owner == id.Owner && bidOrder(id).DSeq == id.DSeq && bidOrder(id).GSeq == id.GSeq && bidOrder(id).OSeq == id.OSeq
+//@   trigger bidOrder(id)
+//@ spec orderGroup(id: types.OrderID): dtypes.GroupID
+//@ axiom orderGroupDef: forall id: types.OrderID :: orderGroup(id).Owner == id.Owner && orderGroup(id).DSeq == id.DSeq && orderGroup(id).GSeq == id.GSeq
+//@   trigger orderGroup(id)
+
+// ---- CreateLease ------------------------------------------------------------------------------
+// A lease is created only from an open bid on an open order of an open group; it takes the bid's price; order and
+// bid become matched; exactly the other open bids of the order are marked lost and their deposits released.
+//@ func (msgServer).CreateLease$1
+//@   modifies lostbids, lostbids[*]
+//@   ensures [walk] !result
+//@   ensures [loser] bid.State == types.BidOpen && bid.BidID != old(msg.BidID) ==> len(lostbids) == old(len(lostbids)) + 1 && lostbids[old(len(lostbids))] == bid
+//@   ensures [other] !(bid.State == types.BidOpen && bid.BidID != old(msg.BidID)) ==> lostbids == old(lostbids)
+//@   ensures [kept] forall j: int :: 0 <= j && j < old(len(lostbids)) ==> lostbids[j] == old(lostbids[j])
+//@ func (msgServer).CreateLease
+//@   requires msg != nil && wired(ms)
+//@   modifies ghost KVhas, ghost KVval, ghost G, ghost Bank, ghost Mod, ghost It_all, ghost EvN, ghost EvLog
+//@   uses orderBidDisjoint, orderLeaseDisjoint, bidLeaseDisjoint
+//@   ensures [guards] result1 == nil ==>
+//@        old(KVhas)[mskey(ms)][bidKeyOf(msg.BidID)] && bidOf(old(KVval)[mskey(ms)], msg.BidID).State == types.BidOpen
+//@        && old(KVhas)[mskey(ms)][orderKeyOf(bidOrder(msg.BidID))] && ordOf(old(KVval)[mskey(ms)], bidOrder(msg.BidID)).State == types.OrderOpen
+//@        && old(KVhas)[dskey(ms)][groupKeyOf(orderGroup(ordOf(old(KVval)[mskey(ms)], bidOrder(msg.BidID)).OrderID))]
+//@        && grpOf(old(KVval)[dskey(ms)], orderGroup(ordOf(old(KVval)[mskey(ms)], bidOrder(msg.BidID)).OrderID)).State == dtypes.GroupOpen
+//@   oncall keeper.(IKeeper).OnBidMatched 1 assert
+//@        leaseOf(KVval[mskey(ms)], asLease(bid.BidID)).State == types.LeaseActive && leaseOf(KVval[mskey(ms)], asLease(bid.BidID)).Price == bid.Price
+//@        && ordOf(KVval[mskey(ms)], order.OrderID).State == types.OrderActive && bidOf(KVval[mskey(ms)], bid.BidID).State == types.BidActive
+//@   call 1 invariant KVhas == atloop(KVhas) && KVval == atloop(KVval) && EvN == atloop(EvN) && EvLog == atloop(EvLog) && !cbstop
+//@   call 1 invariant forall j: int :: 0 <= j && j < len(lostbids) ==> lostbids[j].State == types.BidOpen && lostbids[j].BidID != msg.BidID
+//@   call 1 invariant cap(lostbids) > 0 ==> freshloop(lostbids)
+//@   loop 1 invariant 0 <= iter && iter <= len(lostbids)
+//@   loop 1 invariant forall j: int :: 0 <= j && j < len(lostbids) ==> lostbids[j].State == types.BidOpen && lostbids[j].BidID != msg.BidID
+//@   oncall keeper.(IKeeper).OnBidLost 1 assert bid.State == types.BidOpen && bid.BidID != msg.BidID
+
+//@ property C04 := (msgServer).CloseLease#*, (msgServer).CloseBid#*, (msgServer).CreateLease#*, (msgServer).CreateLease$1#*
